@@ -8,15 +8,24 @@ Encoded (real bytecode): ``require_all`` + its ``authenticate`` closure, ``Preco
     x inner in {absent, accepts(ctx with symbolic authenticated/principal), raises ValueError,
     raises AuthFailure, raises PermissionError} x header in {absent, any string len<=2} x proof
     outcome in {ok, 6 failure codes}:
-      * authenticated result  =>  (inner absent and proof verified) or inner accepted as authenticated
-      * allow mode, no valid proof, no inner  =>  the anonymous context
-      * require-mode failure  =>  ProofError (a PermissionError, not a ValueError) and inner never called
-      * with inner: inner is called exactly once, its exception propagates unchanged, its
-        domain/principal/authenticated/claims are returned unchanged with the gate's claims merged
-        under the gate's claims_key only.
+      * authenticated result  =>  (inner absent and the verifier said ok) or inner accepted as authenticated
+      * allow mode, no valid proof, no inner  =>  the anonymous identity (authenticated/principal/domain of
+        AuthContext.anonymous()); allow mode with no inner never raises
+      * require mode and the verifier did not say ok  =>  refused with a non-ValueError exception (an OR chain
+        swallows ValueError) and inner never called
+      * with inner and a passing gate: inner is consulted, its refusal stays a refusal of the same family
+        (ValueError vs. not), its domain/principal/authenticated and its own claims reach the caller, and the
+        gate's claims - where merged - never say verified='true' for an unproven request.
+    Not asserted (beyond the property): exception classes other than the ValueError/non-ValueError split, exact
+    call counts, identity of propagated exceptions, number of claim keys, which header shapes the gate turns
+    down before consulting the verifier.
 (b) xh, nothing stubbed: the real gate + real ``verify_proof`` on every header string len<=3.
-(c) xh: ``chain_authenticate`` with a gate at any position of a chain of 1..3 raises TypeError at
-    construction; without a gate it does not; ``require_all`` refuses a non-gate.
+(c) xh, nothing stubbed: ``chain_authenticate`` with a gate at any position of a chain of 1..3 refuses at
+    construction (any exception); without a gate, or with the gate wrapped by require_all, it constructs.
+    A non-gate in require_all's gate position (refused at construction today) can never yield an authenticated
+    context when the inner authenticator did not accept.
+(d) xh, verifier replaced by a recorder: the gate hands one and the same replay cache to the verifier in both
+    modes; replayed for real by presenting one valid proof twice.
 """
 
 from __future__ import annotations
@@ -34,7 +43,8 @@ ENCODED = [br.require_all, br.PreconditionGate, br.chain_authenticate, pf.proxy_
 BOUNDS = (
     "modes {allow, require} x inner {absent, accept(symbolic authenticated, principal len<=2), ValueError, "
     "AuthFailure, PermissionError} x header {absent, any str len<=2} x stubbed proof outcome {ok, no_proof.."
-    "replayed}; un-stubbed: header any str len<=3; chains of 1..3 members"
+    "replayed}; un-stubbed: header any str len<=3; chains of 1..3 members; 5 non-gates in require_all's gate position; "
+    "both modes x replay cache on/off x the same proof twice"
 )
 OUTSIDE = (
     "verify_proof itself (C22); HMAC; concurrency of the nonce cache (C23); make_wsgi_app wiring of the "
@@ -43,7 +53,8 @@ OUTSIDE = (
 ASSUMPTIONS = [
     "verify_proof stub: returns {'verified':'true','proxy':<symbolic label>,...} or raises ProofError(reason in the "
     "spec's closed set); which of the two is a free symbolic choice (C22 decides when each happens)",
-    "falcon.Request is a fake exposing get_header(name)/remote_addr only; logging is disabled",
+    "falcon.Request is a fake exposing get_header(name[, required, default])/remote_addr only (anything else raises "
+    "HarnessModelError => INCONCLUSIVE); logging is disabled; replays use real falcon requests",
 ]
 
 _SECRET = b"\x11" * 32
@@ -56,12 +67,13 @@ _HOLD: dict = {"outcome": 0, "label": "", "verify_calls": 0, "verified_ok": 0,
                "inner_kind": 0, "inner_calls": 0, "inner_ctx": None, "inner_exc": None}
 
 
-def _stub_verify_proof(token, *, secrets, origin_id, skew_seconds=30, nonce_cache=None, now=None):  # type: ignore[no-untyped-def]
+def _stub_verify_proof(token, *a, **k):  # type: ignore[no-untyped-def]
+    # tolerant signature: which keyword arguments the gate forwards is not this property's subject
     _HOLD["verify_calls"] += 1
     o = _HOLD["outcome"]
     if o == 0:
         _HOLD["verified_ok"] += 1
-        return {"verified": "true", "proxy": _HOLD["label"], "kid": _KID, "origin_id": origin_id, "reason": "ok"}
+        return {"verified": "true", "proxy": _HOLD["label"], "kid": _KID, "origin_id": k.get("origin_id", _ORIGIN), "reason": "ok"}
     if 1 <= o <= len(_FAIL_REASONS):
         raise pf.ProofError(_FAIL_REASONS[o - 1], "stub detail")
     raise HarnessModelError("proof outcome outside the modelled set")
@@ -102,10 +114,19 @@ class _Req:
         self._raw = raw
         self.remote_addr = "192.0.2.7"
 
-    def get_header(self, name: str, default=None):  # type: ignore[no-untyped-def]
-        if name.lower() == pf.PROOF_HEADER.lower():
-            return self._raw if self._present else default
+    def get_header(self, name: str, *a, **k):  # type: ignore[no-untyped-def]
+        # falcon: get_header(name, required=False, default=None); a request that carries no other header
+        default = a[1] if len(a) > 1 else k.get("default")
+        if name.lower() == pf.PROOF_HEADER.lower() and self._present:
+            return self._raw
+        if (a and a[0]) or k.get("required"):
+            raise HarnessModelError("get_header(required=True) on an absent header is not modelled")
         return default
+
+    def __getattr__(self, name: str):  # type: ignore[no-untyped-def]
+        if name.startswith("__"):  # protocol probes (hasattr(x, '__ch_realize__'), copy, pickle)
+            raise AttributeError(name)
+        raise HarnessModelError(f"falcon.Request.{name} is not modelled by the C24 request fake")
 
 
 def _arm(outcome: int, label: str, inner_kind: int, inner_auth: bool, inner_principal: str) -> None:
@@ -224,18 +245,19 @@ def _real_scenario(args: dict) -> dict:
         raise inner_exc
 
     verified = _independently_verified(headers, warm)
-    auth = br.require_all(pf.proxy_proof_gate(_config(mode)), inner if kind else None)
-    calls_before = 0
+    gate = pf.proxy_proof_gate(_config(mode))
+    auth = br.require_all(gate, inner if kind else None)
+    # the first presentation of a to-be-replayed proof goes through the gate alone (same gate object, hence
+    # same replay memory): the inner authenticator's behaviour must not decide whether the warm-up happens
+    for h in warm:
+        gate(falcon.testing.create_req(headers=h))
     ctx, exc = None, None
     try:
-        for h in warm:
-            auth(falcon.testing.create_req(headers=h))
-        calls_before = calls["n"]
         ctx = auth(falcon.testing.create_req(headers=headers))
     except Exception as e:  # noqa: BLE001
         exc = e
     return {"mode": mode, "require": require, "headers": headers, "warm": warm, "what": what, "kind": kind, "verified": verified,
-            "ctx": ctx, "exc": exc, "inner_calls": calls["n"] - calls_before, "inner_ctx": inner_ctx, "inner_exc": inner_exc}
+            "ctx": ctx, "exc": exc, "inner_calls": calls["n"], "inner_ctx": inner_ctx, "inner_exc": inner_exc}
 
 
 def _replay_unproven(args: dict) -> str | None:
@@ -243,9 +265,11 @@ def _replay_unproven(args: dict) -> str | None:
     r = _real_scenario(args)
     ctx, kind = r["ctx"], r["kind"]
     head = f"require_all(proxy_proof_gate(mode={r['mode']!r}){', inner' if kind else ''}) for a request carrying {r['what']}"
-    if "outcome" not in args and r["require"] and not isinstance(r["exc"], pf.ProofError):
-        return f"{head}: require mode did not refuse with ProofError (got {r['exc']!r} / {ctx!r})"
+    if r["require"] and not r["verified"] and not _is_gate_refusal(r["exc"]):
+        return f"{head}: require mode did not refuse (got {r['exc']!r} / {ctx!r}; a ValueError would be swallowed by an OR chain)"
     if ctx is None:
+        if not r["require"] and kind == 0:
+            return f"{head}: raised {r['exc']!r}; an allow-mode gate with no inner authenticator may not refuse anything"
         return None
     pc = ctx.claims.get(pf.CLAIMS_KEY, {})
     inner_accepted = kind == 1 and r["inner_calls"] == 1 and r["inner_ctx"].authenticated
@@ -256,9 +280,15 @@ def _replay_unproven(args: dict) -> str | None:
             f"reason={pc.get('reason')!r})" + (" and no inner authenticator accepted it" if kind else " and there is no inner authenticator")
             + (f"; end-to-end through make_wsgi_app, a method guarded by ctx.auth.require_authenticated() answered: {e2e}" if e2e else "")
         )
-    if not r["require"] and not r["verified"] and kind == 0 and (ctx.authenticated or ctx.principal is not None or ctx.domain is not None):
-        return f"{head} returned {ctx!r}, not the anonymous context"
+    anon = AuthContext.anonymous()
+    if not r["require"] and not r["verified"] and kind == 0 and (ctx.authenticated, ctx.principal, ctx.domain) != (anon.authenticated, anon.principal, anon.domain):
+        return f"{head} returned {ctx!r}, not the anonymous identity {anon!r}"
     return None
+
+
+def _is_gate_refusal(exc: object) -> bool:
+    """A gate failure refuses the request with something an OR chain does not swallow (chains swallow ValueError)."""
+    return isinstance(exc, Exception) and not isinstance(exc, ValueError)
 
 
 def _replay_composition(args: dict) -> str | None:
@@ -267,32 +297,46 @@ def _replay_composition(args: dict) -> str | None:
     ctx, exc, kind = r["ctx"], r["exc"], r["kind"]
     head = f"require_all(proxy_proof_gate(mode={r['mode']!r}){', inner' if kind else ''}) for a request carrying {r['what']}"
     if r["require"] and not r["verified"]:
-        if not isinstance(exc, pf.ProofError) or isinstance(exc, ValueError):
-            return f"{head}: expected a ProofError refusal, got {exc!r} / {ctx!r}"
         if r["inner_calls"]:
-            return f"{head}: the inner authenticator was consulted {r['inner_calls']}x although the gate refused"
+            return f"{head}: the inner authenticator was consulted {r['inner_calls']}x although the gate had failed"
+        if not _is_gate_refusal(exc):
+            return f"{head}: expected a refusal that an OR chain does not swallow, got {exc!r} / {ctx!r}"
         return None
     if kind == 0:
         if ctx is None:
             return f"{head}: raised {exc!r} although nothing may refuse it"
-        if r["verified"] and not (ctx.authenticated is True and ctx.domain == pf.GATE_NAME and ctx.claims[pf.CLAIMS_KEY]["verified"] == "true"):
+        if r["verified"] and ctx.authenticated is not True:
             return f"{head}: verified proof but context is {ctx!r} / {dict(ctx.claims)!r}"
         return None
-    if r["inner_calls"] != 1:
-        return f"{head}: inner authenticator called {r['inner_calls']}x (expected exactly once)"
+    if r["inner_calls"] == 0:
+        return f"{head}: the gate passed but the inner authenticator was never consulted (got {exc!r} / {ctx!r})"
     if kind != 1:
-        return None if exc is r["inner_exc"] else f"{head}: inner raised {r['inner_exc']!r} but the caller saw {exc!r} / {ctx!r}"
+        if exc is None:
+            return f"{head}: inner refused with {r['inner_exc']!r} but the caller got {ctx!r}"
+        if isinstance(exc, ValueError) != isinstance(r["inner_exc"], ValueError):
+            return f"{head}: inner refused with {r['inner_exc']!r} but the caller saw {exc!r} (ValueError = 'try the next credential', anything else = 'stop')"
+        return None
     want = r["inner_ctx"]
     if ctx is None:
         return f"{head}: raised {exc!r} although gate passed and inner accepted"
     pc = ctx.claims.get(pf.CLAIMS_KEY)
-    if (ctx.domain, ctx.principal, ctx.authenticated) != (want.domain, want.principal, want.authenticated) or len(ctx.claims) != 2 \
-            or ctx.claims.get("scope") != "rw" or pc is None or pc["verified"] != ("true" if r["verified"] else "false"):
+    if (ctx.domain, ctx.principal, ctx.authenticated) != (want.domain, want.principal, want.authenticated) or ctx.claims.get("scope") != "rw":
         return f"{head}: inner returned {want!r} claims={dict(want.claims)!r} but the caller got {ctx!r} claims={dict(ctx.claims)!r}"
+    if pc is not None and pc.get("verified") == "true" and not r["verified"]:
+        return f"{head}: the gate claims merged into the context say verified='true' but the proof did not verify"
     return None
 
 
 _SIG = "C24:require_all:allow-mode-unproven-request-authenticated"
+
+
+def _sig_unproven(args: dict, conc: object = None) -> str:
+    """Allow-mode and require-mode findings are different defects: do not file one under the other's name."""
+    if args.get("require"):
+        return "C24:require_all:require-mode-unproven-request-not-refused"
+    if int(args.get("inner_kind", 0) or 0) != 0:
+        return "C24:require_all:allow-mode-unproven-request-identity-with-inner"
+    return _SIG
 
 _STUBS = ["verify_proof := verified claims with symbolic label | ProofError(reason in spec set)"]
 
@@ -304,7 +348,7 @@ _STUBS = ["verify_proof := verified claims with symbolic label | ProofError(reas
 
 @cond(q=40, t=120, stubs=_STUBS, encoded=[br.require_all, pf.proxy_proof_gate, br.PreconditionGate.__call__],
       bound="mode x inner{absent,accept,ValueError,AuthFailure,PermissionError} x header{absent, str len<=2} x outcome 0..7",
-      replay=_replay_unproven, signature=lambda args, conc: _SIG)
+      replay=_replay_unproven, signature=_sig_unproven)
 def authenticated_only_if_proven_or_inner_accepted(require: bool, present: bool, raw: str, outcome: int, label: str,
                                                    inner_kind: int, inner_auth: bool, inner_principal: str) -> bool:
     """
@@ -315,12 +359,17 @@ def authenticated_only_if_proven_or_inner_accepted(require: bool, present: bool,
     auth = _AUTH_S[(require, inner_kind != 0)]
     try:
         ctx = auth(_Req(present, raw))
-    except Exception:  # noqa: BLE001
-        return True  # refused: nothing is treated as authenticated (the other item checks *which* refusal)
-    proven = _HOLD["verified_ok"] == 1
-    inner_accepted = inner_kind == 1 and _HOLD["inner_calls"] == 1 and inner_auth
+    except (ValueError, PermissionError):
+        # refused the way authenticators refuse: nothing is treated as authenticated (the other item checks
+        # *which* refusal).  Anything else (a harness fault, a TypeError in the code) escapes and is
+        # judged by the replay on real code.
+        return True
+    proven = _HOLD["verified_ok"] >= 1
+    inner_accepted = inner_kind == 1 and _HOLD["inner_calls"] >= 1 and inner_auth
     if ctx.authenticated and not ((inner_kind == 0 and proven) or inner_accepted):
         return False
+    if require and not proven:
+        return False  # require mode let a request through although the verifier never said ok
     if not require and not proven and inner_kind == 0:
         # allow mode, no valid proof, nothing else to identify the caller: exactly the anonymous request
         if ctx.authenticated is not False or ctx.principal is not None or ctx.domain is not None:
@@ -341,42 +390,45 @@ def gate_first_then_inner_unchanged(require: bool, present: bool, raw: str, outc
     """
     _arm(outcome, label, inner_kind, inner_auth, inner_principal)
     auth = _AUTH_S[(require, inner_kind != 0)]
-    header_ok = present and raw != "" and "," not in raw
-    gate_ok = header_ok and outcome == 0
     exc: Exception | None = None
     ctx = None
     try:
         ctx = auth(_Req(present, raw))
+    except HarnessModelError:
+        raise
     except Exception as e:  # noqa: BLE001
         exc = e
-    # the verifier is consulted exactly when there is a single non-empty header value
-    if _HOLD["verify_calls"] != (1 if header_ok else 0):
-        return False
+    # "the proof gate verified it" := the verifier was consulted and said ok.  Which header shapes the gate
+    # turns down by itself before consulting the verifier (absent, multi-valued, ...) is C22's subject.
+    gate_ok = _HOLD["verified_ok"] >= 1
     if require and not gate_ok:
-        # refused by the gate: PermissionError family (never swallowed by an OR chain), inner untouched
-        if not isinstance(exc, pf.ProofError) or isinstance(exc, ValueError):
+        # gate failure in require mode: the inner authenticator is never consulted, and the request is refused
+        # with something an OR chain does not swallow (chains swallow ValueError, so not a ValueError)
+        if _HOLD["inner_calls"] != 0:
             return False
-        return _HOLD["inner_calls"] == 0
+        return _is_gate_refusal(exc)
     if inner_kind == 0:
         if exc is not None or ctx is None:
-            return False
+            return False  # allow mode never refuses; a verified proof is not refused either
         if gate_ok:
-            c = ctx.claims.get(pf.CLAIMS_KEY)
-            return bool(ctx.authenticated is True and ctx.principal == label and ctx.domain == pf.GATE_NAME and c is not None and c["verified"] == "true")
+            return ctx.authenticated is True
         return True  # allow-mode unproven/no-inner identity is the other item's subject
-    if _HOLD["inner_calls"] != 1:
-        return False
+    if _HOLD["inner_calls"] == 0:
+        return False  # the gate passed: the inner authenticator decides, so it must have been asked
     if inner_kind != 1:
-        return exc is _HOLD["inner_exc"]  # inner's own refusal, unchanged
+        # inner's own refusal stays a refusal of the same family (ValueError = "try the next credential" for an
+        # enclosing chain, anything else = "stop")
+        return exc is not None and isinstance(exc, ValueError) == isinstance(_HOLD["inner_exc"], ValueError)
     if exc is not None or ctx is None:
         return False
     want = _HOLD["inner_ctx"]
     if ctx.domain != want.domain or ctx.principal != want.principal or ctx.authenticated != want.authenticated:
         return False
-    if len(ctx.claims) != 2 or ctx.claims.get("scope") != "rw":
-        return False
+    if ctx.claims.get("scope") != "rw":
+        return False  # the inner authenticator's own claims are what the method sees
     c = ctx.claims.get(pf.CLAIMS_KEY)
-    return c is not None and c["verified"] == ("true" if gate_ok else "false")
+    # the gate's attestation, where present, never says "verified" for an unproven request
+    return c is None or gate_ok or c.get("verified") != "true"
 
 
 # ---------------------------------------------------------------------------
@@ -387,7 +439,7 @@ _LR = pick(3, 4)
 
 
 @cond(q=60, t=300, encoded=[br.require_all, pf.proxy_proof_gate, pf.verify_proof], bound="header absent or any str len<=%d, no inner" % _LR,
-      replay=_replay_unproven, signature=lambda args, conc: _SIG)
+      replay=_replay_unproven, signature=_sig_unproven)
 def real_gate_short_header_no_inner(require: bool, present: bool, raw: str) -> bool:
     """
     pre: len(raw) <= _LR
@@ -396,13 +448,13 @@ def real_gate_short_header_no_inner(require: bool, present: bool, raw: str) -> b
     # no string this short is a proof (a proof has 5 dot-separated fields and a 43-char MAC)
     try:
         ctx = _AUTH_R[require](_Req(present, raw))
-    except pf.ProofError:
-        return require
-    except Exception:  # noqa: BLE001
-        return False
+    except HarnessModelError:
+        raise
+    except Exception as e:  # noqa: BLE001
+        return require and _is_gate_refusal(e)  # allow mode refuses nothing; require refuses un-swallowably
     if require:
         return False
-    return ctx.authenticated is False and ctx.principal is None and ctx.domain is None
+    return ctx.authenticated == _ANON.authenticated and ctx.principal == _ANON.principal and ctx.domain == _ANON.domain
 
 
 # ---------------------------------------------------------------------------
@@ -430,27 +482,39 @@ def chain_refuses_gate_anywhere(n: int, pos: int, require: bool, with_gate: bool
         members[pos] = _AUTH_R[require] if wrapped else _GATE_R[require]
     try:
         chain = br.chain_authenticate(*members)
-    except TypeError:
+    except Exception:  # noqa: BLE001  (nothing is stubbed here; the property names no exception class)
         return with_gate and not wrapped
-    except Exception:  # noqa: BLE001
-        return False
     return callable(chain) and not (with_gate and not wrapped)
 
 
-@cond(q=20, t=60, encoded=[br.require_all], bound="non-gate callables / None / the raw gate function")
-def require_all_refuses_non_gate(kind: int) -> bool:
+def _claims_fn(req):  # type: ignore[no-untyped-def]
+    """A plain function that answers like a gate but is not one."""
+    return {"verified": "true", "proxy": "someone"}
+
+
+_NON_GATES = [_plain_a, None, _claims_fn, _AUTH_R[True], _AUTH_R[False]]
+
+
+@cond(q=20, t=60, encoded=[br.require_all], bound="5 non-gates in the gate position x header absent/any str len<=2; inner returns the anonymous context")
+def non_gate_in_gate_position_cannot_authenticate(kind: int, present: bool, raw: str) -> bool:
     """
-    pre: 0 <= kind <= 3
+    pre: 0 <= kind <= 4 and len(raw) <= 2
     post: _
     """
-    thing = [_plain_a, None, _GATE_R[True]._fn, _AUTH_R[True]][kind]
+    # Whether require_all turns a non-gate down at construction (it does today) or accepts it duck-typed is not
+    # the property's business.  What is: with an inner authenticator that does not accept the request
+    # as authenticated and no proof gate that verified anything, the result is never authenticated.
     try:
-        br.require_all(thing, _plain_b)  # type: ignore[arg-type]
-    except TypeError:
-        return True
+        auth = br.require_all(_NON_GATES[kind], _plain_b)  # type: ignore[arg-type]
     except Exception:  # noqa: BLE001
-        return False
-    return False
+        return True
+    try:
+        ctx = auth(_Req(present, raw))  # type: ignore[arg-type]
+    except HarnessModelError:
+        raise
+    except Exception:  # noqa: BLE001
+        return True
+    return not ctx.authenticated
 
 
 # ---------------------------------------------------------------------------
@@ -482,10 +546,12 @@ def _replay_twice(a: dict) -> str | None:
     gate = pf.proxy_proof_gate(pf.ProxyProofConfig(mode=mode, origin_id=_ORIGIN, secrets=_SECRETS))  # type: ignore[arg-type]
     auth = br.require_all(gate)
     good = pf.mint_proof(_SECRET, _KID, _ORIGIN)
-    first = auth(_Req(True, good))  # type: ignore[arg-type]
+    import falcon.testing
+
+    first = auth(falcon.testing.create_req(headers={pf.PROOF_HEADER: good}))
     try:
-        second = auth(_Req(True, good))  # type: ignore[arg-type]
-    except pf.ProofError:
+        second = auth(falcon.testing.create_req(headers={pf.PROOF_HEADER: good}))
+    except Exception:  # noqa: BLE001  (refused: not authenticated twice)
         return None
     if first.authenticated and second.authenticated:
         return f"mode={mode}: the same proof presented twice was authenticated twice (second: domain={second.domain!r}, claims={dict(second.claims)})"
